@@ -12,7 +12,7 @@ import os
 
 import abbr_gen
 import repeat_util as u
-from common import enc_str, VERIF
+from common import enc_str, enc_opt, Reader, VERIF
 from markup_util import enc_config, decode_expand, decode_res, impl_expand, canon_cfg, classify_exc, NotModelled
 from props.c18 import impl_markup, decode_markup
 
@@ -276,6 +276,122 @@ def decode_tree(w):
     return decode_res(w, lambda r: r.list(lambda: entry(r)))
 
 
+# ---------------------------------------------------------------- the SPEC of the theorems against convert.py
+VTYPES = {'raw': 0, 'singleQuote': 1, 'doubleQuote': 2, 'expression': 3}
+
+
+def impl_convert(abbr, max_repeat):
+    """emmet.abbreviation.parse = tokenize + parse + convert, the function the C02 theorems are about:
+    canonical preorder of its node tree (before snippet resolution and formatting)."""
+    from emmet.abbreviation import parse
+    from emmet.abbreviation.tokenizer import tokens as T
+    try:
+        tree = parse(abbr, {} if max_repeat is None else {'max_repeat': max_repeat})
+    except Exception as e:  # noqa
+        return classify_exc(e)
+
+    def val(v):
+        if v is None:
+            return None
+        out = []
+        for x in v:
+            if isinstance(x, str):
+                out.append(('s', x))
+            elif isinstance(x, T.Field):
+                out.append(('f', x.index, x.name))
+            else:
+                out.append(('?', repr(x)))
+        return out
+    res = []
+
+    def walk(n, d):
+        rp = n.repeat
+        attrs = None
+        if n.attributes is not None:
+            attrs = [(a.name, val(a.value), VTYPES.get(a.value_type, 9), bool(a.boolean), bool(a.implied), bool(a.multiple))
+                     for a in n.attributes]
+        res.append((d, n.name, val(n.value), None if rp is None else (rp.count, rp.value, bool(rp.implicit)),
+                    attrs, bool(n.self_closing)))
+        for c in n.children:
+            walk(c, d + 1)
+    for c in tree.children:
+        walk(c, 0)
+    return ('ok', res)
+
+
+def decode_spec(w):
+    r = Reader(w)
+    tag = r.int()
+    if tag == 1:
+        return ('err', r.int(), r.opt(r.int)), None, None
+    if tag == 2:
+        return ('internal', r.int()), None, None
+    if tag != 0:
+        return ('bad', w[:8]), None, None
+    clean = r.bool()
+
+    def vtok():
+        if r.int() == 0:
+            return ('s', r.str())
+        return ('f', r.int(), r.str())
+
+    def forest():
+        out = []
+        while r.int() == 1:
+            d = r.int()
+            nm = r.opt(r.str)
+            v = r.opt(lambda: r.list(vtok))
+            rp = r.opt(lambda: (r.int(), r.int(), r.bool()))
+            at = r.opt(lambda: r.list(lambda: (r.opt(r.str), r.opt(lambda: r.list(vtok)), r.int(), r.bool(), r.bool(), r.bool())))
+            sc = r.bool()
+            out.append((d, nm, v, rp, at, sc))
+        return out
+    m = forest()
+    sp = forest() if clean else None
+    return ('ok', m), clean, sp
+
+
+def run_spec(ctx, cases):
+    """Extracted SPEC (list_b (unroll_b ...), the right-hand side of C02_limit_full) and extracted
+    model convert, against emmet.abbreviation.parse on the same abbreviations; also counts on how
+    many generated inputs the theorems' hypothesis clean_node holds."""
+    ok = ctx.build(['run/RepeatRun.vo'])
+    model = ctx.model('repeat') if ok else None
+    if model is None:
+        return
+    step = 1 if ctx.tier == 'quick' else 3
+    sel = [c for c in cases[::step] if c.exp is None or u.count_nodes(c.exp) <= MODEL_MAX_NODES]
+    wires = []
+    for c in sel:
+        m = c.cfg.get('maxRepeat')
+        wires.append([1] + enc_opt(lambda x: [x], m) + enc_str(c.abbr))
+    dis_model = dis_spec = n_clean = 0
+    for c, w in zip(sel, model.run(wires)):
+        im = impl_convert(c.abbr, c.cfg.get('maxRepeat'))
+        mo, clean, sp = decode_spec(w)
+        ctx.count_eval()
+        if im[0] == 'recursion':
+            continue
+        if mo != im:
+            dis_model += 1
+            if dis_model <= 3:
+                ctx.say('DISAGREE C02 convert %r max_repeat=%r\n  impl  %r\n  model %r' % (c.abbr, c.cfg.get('maxRepeat'), str(im)[:400], str(mo)[:400]))
+                ctx.broken.append({'kind': 'correspondence', 'file': 'convert-model', 'input': c.abbr,
+                                   'impl': repr(im)[:300], 'model': repr(mo)[:300]})
+        if clean:
+            n_clean += 1
+            if ('ok', sp) != im:
+                dis_spec += 1
+                if dis_spec <= 3:
+                    ctx.say('DISAGREE C02 spec %r max_repeat=%r\n  impl %r\n  spec %r' % (c.abbr, c.cfg.get('maxRepeat'), str(im)[:400], str(sp)[:400]))
+                    ctx.broken.append({'kind': 'correspondence', 'file': 'convert-spec', 'input': c.abbr,
+                                       'impl': repr(im)[:300], 'spec': repr(sp)[:300]})
+    ctx.cov['correspondence']['convert_model'] = {'cases': len(sel), 'disagreements': dis_model}
+    ctx.cov['correspondence']['convert_spec_unroll_b'] = {'cases': n_clean, 'disagreements': dis_spec}
+    ctx.cov['distribution']['theorem-hypothesis:clean_node holds'] = n_clean
+    ctx.cov['distribution']['theorem-hypothesis:clean_node fails'] = len(sel) - n_clean
+
+
 # ---------------------------------------------------------------- run
 def run_cases(ctx, model, cases):
     impl = []
@@ -368,6 +484,7 @@ def run(ctx):
             ctx.cover('gen:tie-only')
     impl = run_cases(ctx, model, g.cases)
     run_tokens(ctx, model)
+    run_spec(ctx, g.cases)
     picks = [k for k, c in enumerate(g.cases) if c.label == 'random'][:3] + \
             [k for k, c in enumerate(g.cases) if c.label == 'skeleton' and 'maxRepeat' in c.cfg][40:42]
     for k in picks:
